@@ -19,6 +19,17 @@ Theorem C14_dispatch_v6 : forall reads acc,
 Proof. exact serve6_spec. Qed.
 Print Assumptions C14_dispatch_v6.
 
+(** "exactly once" as a count, for ANY sequence of read results: as many handler invocations as there are
+    datagrams, read before the first read error, that decode (DHCPv4: and come from a UDP peer) *)
+Theorem C14_exactly_once_v4 : forall reads,
+  length (fst (serve4 reads [])) = length (filter dispatchable4 (before_error reads)).
+Proof. exact serve4_count. Qed.
+Print Assumptions C14_exactly_once_v4.
+Theorem C14_exactly_once_v6 : forall reads,
+  length (fst (serve6 reads [])) = length (filter dispatchable6 (before_error reads)).
+Proof. exact serve6_count. Qed.
+Print Assumptions C14_exactly_once_v6.
+
 (** a malformed datagram never stops the serving loop *)
 Theorem C14_malformed_v4 : forall b p r acc, (forall m, dec4 (firstn read_buf_size b) <> Ok m) ->
   serve4 (Datagram b p :: r) acc = serve4 r acc.
